@@ -39,6 +39,10 @@ def main():
     del argv[i:i + 2]
   man = json.load(open(os.path.join(VERIF, 'MANIFEST.json')))
   ids = [c['property_id'] for c in man['checks']]
+  if '--no-gate' in argv:
+    argv.remove('--no-gate')
+    SCRATCH_ENV['VERIF_NO_GATE'] = '1'
+    SCRATCH_ENV['VERIF_MATRIX_DRY'] = '1'
   harmless = '--harmless' in argv
   if harmless:
     argv.remove('--harmless')
@@ -69,12 +73,13 @@ def main():
       meta['rules_reporting'] = {k: v for k, v in sorted(caught.items())}
       meta['analysis_errors'] = {k: v for k, v in sorted(broken.items())}
       meta.pop('check_output', None)
-      json.dump(meta, open(mp, 'w'), indent=1)
+      if not SCRATCH_ENV.get('VERIF_MATRIX_DRY'):
+        json.dump(meta, open(mp, 'w'), indent=1)
       own = meta.get('property')
       rows.append((sd, own, caught, broken))
       print('%-7s own=%s caught-by=%s%s' % (sd, own, ','.join('%s[%s]' % (k, ' '.join(v)) for k, v in sorted(caught.items())) or '-',
                                              ('  ANALYSIS-ERROR in ' + ','.join(sorted(broken))) if broken else ''))
-  with open(os.path.join(sdir, 'MATRIX.md'), 'w') as f:
+  with open(os.path.join(sdir, 'MATRIX.md') if not SCRATCH_ENV.get('VERIF_MATRIX_DRY') else os.devnull, 'w') as f:
     f.write('| seeded change | aimed at | caught by (rules reporting) | own check catches it |\n|---|---|---|---|\n')
     for sd, own, caught, broken in rows:
       f.write('| %s | %s | %s | %s |\n' % (sd, own, '; '.join('%s: %s' % (k, ', '.join(v)) for k, v in sorted(caught.items())) or 'nothing' +
